@@ -1,8 +1,12 @@
 import Texel.Proofs.Chain
+import Texel.Proofs.Output
 import Texel.Model.RingF
 /-! # C04 — shape fidelity: nothing moves more than half a pixel, nothing is lost
 
-Proved here: (a, routed part) every vertex of every routed chain is the pixel of an input vertex (its centre is the pixel
+Proved here: (a, whole clause) `C04_output_vertex_is_input_pixel`: every vertex of every ring `snapPolygonF` returns — after joining,
+spike removal, ring splitting, shell/hole cancellation, hole matching, reversal and the keep option — is the pixel on that level of a
+vertex of the input polygon, and that pixel contains the vertex (so the vertex moved by at most half a pixel in each axis, `C03_centre_*`).
+Its ingredients: (a, routed part) every vertex of every routed chain is the pixel of an input vertex (its centre is the pixel
 centre of some vertex of the input polygon), on every level, for every polygon; (a, clean-up part) spike removal
 (`kmpDeduplicate`, functional version) never invents a vertex. Edge distance (b) and coverage (c) are decided per generated case
 by the exact oracles `oracleC04ab`/`oracleC04c` on the implementation's output (geometric core open, see DESIGN §6 C01/C04). -/
@@ -24,5 +28,19 @@ theorem C04_address_contains_vertex (g : Grid) (hres : 0 < g.res) (p : Pt) (a : 
 /-- spike removal never invents a vertex (every ring, valid or not) -/
 theorem C04_dedup_vertices (ring out : Array P) (h : kmpDeduplicateF ring = .ok out) : ∀ v ∈ out, v ∈ ring :=
   kmpDeduplicateF_mem ring out h
+
+/-- **C04, first clause, at full strength on the model**: every output vertex is the pixel centre of some vertex of the input polygon —
+for every polygon (valid or not), every requested level `0 < l ≤ depth`, every combination of flags. `v` is the pixel index pair the
+coordinate stands for (`Grid.centroid g l q` is the coordinate, C03); `u` is the input vertex, `a` its deepest address. -/
+theorem C04_output_vertex_is_input_pixel (g : Grid) (hres : 0 < g.res) (rings : List (List Pt)) (levels : List Nat) (cfg : Config)
+    (res : List (Nat × Array Poly)) (h : snapPolygonF g rings levels cfg = .ok res)
+    (hlev : ∀ l ∈ levels, l ≤ g.depth ∧ l ≠ 0)
+    (l : Nat) (polys : Array Poly) (hm : (l, polys) ∈ res) (pg : Poly) (hpg : pg ∈ polys) (r : Array P) (hr : r ∈ pg) (v : P) (hv : v ∈ r) :
+    ∃ ring ∈ rings, ∃ u ∈ ring, ∃ a, deepestAddr g u = some a ∧ v = (a.up g l).toP ∧ containsPoint u (g.box l (a.up g l)) = true :=
+  snapPolygonF_vertex g hres rings levels cfg res h hlev l polys hm pg hpg r hr v hv
+
+-- non-vacuity: a triangle on a 16×16 grid (res 4, depth 4) snapped at level 2 comes back with three vertices, each the pixel of its vertex
+#guard (snapPolygonF ⟨0, 0, 4, 4⟩ [[⟨2, 2⟩, ⟨50, 6⟩, ⟨30, 60⟩]] [2] ⟨false, false, false⟩).toOption.map (fun r => r.map fun e => (e.1, e.2.toList.map fun pg => pg.toList.map Array.toList))
+  == some [(2, [[[(0, 0), (3, 0), (1, 3)]]])]
 
 end Texel.C04
